@@ -1799,14 +1799,30 @@ class Module(ABC):
         if name in channel_names:
             channel_cols = list(channel.channel_params.keys())
             channel_cols += list(channel.channel_states.keys())
-            self.base.nodes.loc[self._nodes_in_view, channel_cols] = float("nan")
+            # Parameters (e.g. `eK`) and currents (e.g. `i_K`) can be shared with other
+            # channels. Only release what no remaining channel still needs.
+            others = [c for c in self.base.channels if c._name != name]
+            users = {
+                col: [
+                    c._name
+                    for c in others
+                    if col in c.channel_params or col in c.channel_states
+                ]
+                for col in channel_cols
+            }
+            rows = np.asarray(self._nodes_in_view)
+            for col in channel_cols:
+                in_use = self.base.nodes.loc[rows, users[col]].any(axis=1).to_numpy()
+                self.base.nodes.loc[rows[~in_use], col] = float("nan")
             self.base.nodes.loc[self._nodes_in_view, name] = False
 
             # only delete cols if no other comps in the module have the same channel
             if np.all(~self.base.nodes[name]):
                 self.base.channels.pop(all_channel_names.index(name))
-                self.base.membrane_current_names.remove(channel.current_name)
-                self.base.nodes.drop(columns=channel_cols + [name], inplace=True)
+                if channel.current_name not in [c.current_name for c in others]:
+                    self.base.membrane_current_names.remove(channel.current_name)
+                unshared_cols = [col for col in channel_cols if not users[col]]
+                self.base.nodes.drop(columns=unshared_cols + [name], inplace=True)
         else:
             raise ValueError(f"Channel {name} not found in the module.")
 
